@@ -61,11 +61,18 @@ UNIT = dict(
                  ("C03:parse_entry_cap", "ret matches Ok(o) ==> o.0.len() <= MAX_BATCH_ENTRIES"),
                  ("C03:parse_budget_or_single", "ret matches Ok(o) ==> (payload_sum(o.0@) <= max_bytes || o.0.len() <= 1)"),
                  ("C15:parse_count_covers_returned", "ret matches Ok(o) ==> o.0.len() <= o.6"),
+                 ("C01,C03,C15:parse_returns_every_parsed_entry", "ret matches Ok(o) ==> (initial_trim_in == 0 ==> o.0.len() == o.6)"),
              ],
-             hints=[dict(before="entries.push(Entry { data: final_data });", text="                    let ghost es0 = entries@;"),
+             hints=[dict(before="        for plan_idx in 0..plan.len()", text="        let ghost mut consumed: Seq<usize> = Seq::empty(); // ghost: where parsing of each range stopped"),
+                    dict(after="                buf_offset += entry_consumed;\n            }", text="            proof { let c0 = consumed; consumed = consumed.push(buf_offset); assert(forall|j: int| 0 <= j < c0.len() ==> consumed[j] == c0[j]); assert(consumed[plan_idx as int] == buf_offset); }"),
+                    dict(before="entries.push(Entry { data: final_data });", text="                    let ghost es0 = entries@;"),
                     dict(after="entries.push(Entry { data: final_data });", text="                    proof { lemma_payload_sum_push(es0, entries@.last()); }")],
              loops={
-                 0: dict(kind="for", invariant=[
+                 0: dict(kind="for", invariant_except_break=[
+                     # entries of range p are only looked at after every earlier range was delivered to the end of its block
+                     ("C01:inv_no_range_skipped", "forall|j: int| 0 <= j < plan_idx ==> #[trigger] consumed[j] == buffers[j].len() && (plan[j].is_tail || plan[j].end >= plan[j].blk.used)"),
+                     ("", "consumed.len() == plan_idx"),
+                 ], invariant=[
                      ("", "buffers.len() == plan.len()"), ("", "plan.len() < 1024"),
                      ("", "forall|i: int| 0 <= i < buffers.len() ==> #[trigger] buffers[i].len() <= 0x4000_0000 && plan[i].start + buffers[i].len() <= u64::MAX"),
                      ("", "bytes_well_formed()"),
@@ -73,6 +80,7 @@ UNIT = dict(
                      ("C03:inv_budget", "entries.len() >= 2 ==> total_data_bytes <= max_bytes"),
                      ("C03:inv_payload_le_total", "payload_sum(entries@) <= total_data_bytes"),
                      ("C15:inv_parsed_ge_returned", "entries.len() <= entries_parsed"),
+                     ("C01,C03,C15:inv_every_parsed_entry_returned", "initial_trim_in == 0 ==> entries.len() == entries_parsed && initial_trim == 0"),
                      ("", "entries_parsed as int <= plan_idx * 0x40_0000"),
                      ("", "total_data_bytes as int <= plan_idx * 0x4000_0000"),
                  ]),
@@ -86,6 +94,7 @@ UNIT = dict(
                      ("C03:inv_budget", "entries.len() >= 2 ==> total_data_bytes <= max_bytes"),
                      ("C03:inv_payload_le_total", "payload_sum(entries@) <= total_data_bytes"),
                      ("C15:inv_parsed_ge_returned", "entries.len() <= entries_parsed"),
+                     ("C01,C03,C15:inv_every_parsed_entry_returned", "initial_trim_in == 0 ==> entries.len() == entries_parsed && initial_trim == 0"),
                      ("", "entries_parsed as int <= plan_idx * 0x40_0000 + buf_offset / 256"),
                      ("", "total_data_bytes as int <= plan_idx * 0x4000_0000 + buf_offset"),
                  ], decreases="buffer.len() - buf_offset"),
